@@ -217,12 +217,14 @@ pub fn explore_body_sharded(prop: &str, tier: &str, body_idx: usize, bound: usiz
 }
 
 /// Scheduling points right before an operation that makes lsm-tree install a new tree version (which draws a
-/// seqno and raises the shared visible seqno): flush registration, compaction, clear, ingestion, meta-keyspace
-/// create/remove.
-const VERSION_UPGRADE_SITES: [&str; 7] = [
-    "flush.got_watermark", "worker.before_compact", "clear.before_apply", "ingest.locked",
-    "meta.create.before_finish", "meta.remove.before_finish", "meta.remove.finished",
-];
+/// seqno and raises the shared visible seqno) WITHOUT holding fjall's journal lock: flush registration, compaction,
+/// meta-keyspace create/remove. On the unchanged tree these are the only version upgrades that can fall between two
+/// memtable applies of someone else's batch (the recorded known finding).
+const VERSION_UPGRADE_SITES: [&str; 5] = ["flush.got_watermark", "worker.before_compact", "meta.create.before_finish", "meta.remove.before_finish", "meta.remove.finished"];
+
+/// Version upgrades that fjall performs under the journal lock (clear, bulk ingestion): they can only fall into
+/// another commit's window if that lock is not held where it should be — never part of the known finding.
+const LOCKED_UPGRADE_SITES: [(&str, &str); 2] = [("clear.before_apply", "clear"), ("ingest.locked", "ingestion")];
 
 /// Sites of *other* threads' steps that ran while some thread was between its first memtable apply
 /// (`*.before_item` / `*.before_apply`) and its publish (`*.before_publish`): names what interleaved mid-commit.
@@ -233,7 +235,7 @@ pub fn interleaved_sites(trace: &[String]) -> String {
         (t.to_string(), site.to_string())
     };
     let steps: Vec<(String, String)> = trace.iter().map(|s| parse(s)).collect();
-    let mut out: BTreeSet<&str> = BTreeSet::new();
+    let mut out: BTreeSet<String> = BTreeSet::new();
     let mut open: Option<String> = None; // thread currently mid-commit
     for (t, site) in &steps {
         match &open {
@@ -248,7 +250,9 @@ pub fn interleaved_sites(trace: &[String]) -> String {
                         open = None;
                     }
                 } else if VERSION_UPGRADE_SITES.contains(&site.as_str()) {
-                    out.insert("lsm-version-upgrade");
+                    out.insert("lsm-version-upgrade".to_string());
+                } else if let Some((_, what)) = LOCKED_UPGRADE_SITES.iter().find(|(s, _)| s == site) {
+                    out.insert(format!("{what}-inside-foreign-commit"));
                 }
             }
         }
